@@ -120,6 +120,10 @@ class PureMachine(MachineMixin, RuleBasedStateMachine):
         else:
             fid = -1
             holder = FunctionValue()
+        if buffered and pick % 2:
+            # the caller re-uses one value holder: it still holds the value of an earlier evaluation
+            holder.value = self.last_value if getattr(self, "last_value", None) is not None else 17.25
+            self.cls.add("re-used-value-holder")
         if buffered:
             # the caller keeps ONE coordinate container (and one Point) per instance and overwrites it in place
             # between evaluations, as an optimisation loop that re-uses its work vector does
@@ -141,6 +145,7 @@ class PureMachine(MachineMixin, RuleBasedStateMachine):
         if out is not holder:
             fail(who + "Calculate returned a different object than the supplied value holder")
         val = holder.value
+        self.last_value = val
         if as_list:
             if list(arg) != before or not isinstance(arg, list):
                 fail(who + "Calculate modified the point: %r -> %r" % (before, arg))
